@@ -13,7 +13,9 @@ from doctrans.ast_utils import get_value
 from doctrans.pure_utils import lstrip_namespace, none_types, rpartial
 from doctrans.source_transformer import to_code
 
-lstrip_typings = partial(lstrip_namespace, namespaces=("typings.", "_extensions."))
+lstrip_typings = partial(
+    lstrip_namespace, namespaces=("typing_extensions.", "typing.")
+)
 
 
 def ir_merge(target, other):
